@@ -277,3 +277,107 @@ def run_closure(ctx, rule_id, cases, exceptions=None):
                                   f"(position {s.index}) would rewrite to `{tagof(out)[:60]}`; each stage visits the tree once, so the new node never "
                                   f"gets that rewrite — `{s.name}` must run after `{stage}` (or the product must already be in final form)")
     return n
+
+
+# ---------------------------------------------------------------------- self-nesting
+def run_self_nesting(ctx, rule_id, cases, matters: dict):
+    """sqlglot's transform() does not descend below a node the stage *replaced*.  A stage that returns a new node which embeds
+    an operand therefore never sees an occurrence of its own pattern nested in that operand (TO_DECIMAL(1 + TO_DECIMAL(x)),
+    v['a']['b']), unless it recurses itself.  For each wiring case with a symbolic operand the input is nested into itself
+    (operand := another instance of the same input) and the stage is interpreted on the outer node; if the product is a new
+    node that still contains the inner instance unrewritten, the nested occurrence is lost.  `matters`: stage -> a nested
+    input that was confirmed to be meaningful Snowflake (only those are verdicts; the others are listed unclassified)."""
+    prog = ctx.prog
+    n = 0
+    seen = set()
+    for name, stage, make, expect, why in cases:
+        if not prog.has_fn("transforms", stage) or expect in (UNCHANGED, RAISES):
+            continue
+        holder = {}
+
+        def run(I, make=make, stage=stage):
+            inner, iops = make()
+            outer, oops = make()
+            # the first symbolic operand of the outer instance becomes the inner instance
+            target = next((v for v in oops.values() if isinstance(v, NodeV) and v.name.startswith("operand:")), None)
+            if target is None:
+                holder["skip"] = True
+                return Const(None)
+            placed = False
+            seen_ids = set()
+
+            def place(node_):
+                nonlocal placed
+                if id(node_) in seen_ids or placed:
+                    return
+                seen_ids.add(id(node_))
+                for k, v in list(node_.args.items()):
+                    if v is target:
+                        node_.args[k] = inner
+                        inner.parent = node_
+                        placed = True
+                        return
+                    if isinstance(v, (Lst, Tup)):
+                        for i, x in enumerate(v.items):
+                            if x is target:
+                                v.items[i] = inner
+                                inner.parent = node_
+                                placed = True
+                                return
+                            if isinstance(x, NodeV):
+                                place(x)
+                    elif isinstance(v, NodeV):
+                        place(v)
+
+            place(outer)
+            if not placed:
+                holder["skip"] = True
+                return Const(None)
+            holder.update(inner=inner, outer=outer, inner_cls=inner.cls)
+            return I.call(I.global_lookup("transforms", stage), [outer], {}, None)
+
+        try:
+            paths = explore(prog, lambda: ExecHooks(None), run, max_paths=64)
+        except Exception:  # noqa: BLE001
+            continue
+        if not paths or holder.get("skip") or paths[0].outcome != "return" or "inner" not in holder:
+            continue
+        p = paths[0]
+        outer, inner = holder["outer"], holder["inner"]
+        if p.value is outer or not isinstance(p.value, NodeV):
+            continue  # rewritten in place (or left alone): transform() goes on into the children
+        # is the very inner instance (unrewritten) still inside the product?
+        found = False
+        seen_ids = set()
+
+        def walk(v):
+            nonlocal found
+            if id(v) in seen_ids or found:
+                return
+            seen_ids.add(id(v))
+            if v is inner or getattr(v, "copy_of", None) is inner:
+                found = True
+                return
+            if isinstance(v, NodeV):
+                for k, x in v.args.items():
+                    if ":" not in k:
+                        walk(x)
+            elif isinstance(v, (Lst, Tup)):
+                for x in v.items:
+                    walk(x)
+
+        walk(p.value)
+        if not found or (stage, name) in seen:
+            continue
+        seen.add((stage, name))
+        n += 1
+        loc = prog.mod("transforms").loc(prog.fn("transforms", stage))
+        verdict = False if stage in matters else None
+        ctx.ob(rule_id, f"{stage}: an occurrence nested in its own operand is rewritten too ({name[:50]})", verdict, loc,
+               "the product is a new node that embeds the operand unvisited")
+        if stage in matters and stage not in {s for s, _ in [k for k in seen if k[1] != name]}:
+            ctx.violation(rule_id, "transforms", stage, "nested occurrence in the operand is never rewritten", loc,
+                          f"`{stage}` replaces the node it matches by a new node that embeds the operand as it is; sqlglot's transform() does not "
+                          f"descend below a replaced node, so the same construct nested in the operand is never rewritten — e.g. `{matters[stage]}` "
+                          f"reaches DuckDB with the inner call untouched")
+    return n
